@@ -575,7 +575,11 @@ func (g *genState) send() Stmt {
 }
 
 func (g *genState) metaValue() (text, rendered string) {
-	switch g.pick("metaValKind", 6) {
+	switch g.pick("metaValKind", 7) {
+	case 6:
+		// a number variable (the only place the shared grammar takes one)
+		n := g.pick("numVar", 1000)
+		return g.newVar("number", fmt.Sprint(n), ""), fmt.Sprint(n)
 	case 0:
 		return "@a:b", "a:b"
 	case 1:
